@@ -242,6 +242,66 @@ static void frame_bufferless(int nch, const ll* ch, ZSTD_compressionParameters c
     ZSTD_freeCCtx(fresh);
 }
 
+/* block-level session (ZSTD_compressBlock): R3.  mode 0 = ZSTD_compressBegin_usingDict(level) with a raw dictionary (or none),
+ * mode 1 = ZSTD_compressBegin_usingCDict with a by-reference raw-content CDict of that level (attached: pledged size unknown).
+ * Chunks are (offset,size) in the arena, possibly non-contiguous and possibly overlapping the previous chunk (a caller
+ * re-using its input buffer); each size is clamped to ZSTD_getBlockSize().  The window state after begin and after every
+ * block is printed for the model (opcode 104 = OpBlockMode); blocks are decoded with ZSTD_decompressBlock / ZSTD_insertBlock
+ * into one contiguous buffer.  rnb / fnb = overflow corrections made during the session by the reused / fresh context
+ * (block mode does not enforce the window, so a correction is visible in the output: fresh equality is only claimed
+ * when both are 0). */
+static void frame_blockapi(int mode, int level, size_t dOff, size_t dSize, int nch, const ll* ch) {
+    ZSTD_CCtx* fresh = ZSTD_createCCtx_advanced(cmem);
+    ZSTD_CDict* cd = NULL; const void* const d = dSize ? arena + dOff : NULL;
+    size_t r = 0, pos = 0, pos2 = 0, total = 0, q = 0; int i, bad = 0, fr, rt = 0; pre_t p0; U32 nb0, fnb0;
+    size_t* const csz = (size_t*)calloc((size_t)nch + 1, sizeof(size_t)); size_t* const usz = (size_t*)calloc((size_t)nch + 1, sizeof(size_t));
+    for (i = 0; i < nch; i++) total += (size_t)ch[2 * i + 1];
+    need_cbuf(total + (size_t)nch * 32);
+    if (mode == 1) { cd = ZSTD_createCDict_byReference(d, dSize, level); if (!cd) { printf("E blockapi cdict\n"); return; } }
+    p0 = pre();
+    r = (mode == 1) ? ZSTD_compressBegin_usingCDict(cctx, cd) : ZSTD_compressBegin_usingDict(cctx, d, dSize, level); bad |= ZSTD_isError(r);
+    fr = forced(p0);
+    nb0 = cctx->blockState.matchState.window.nbOverflowCorrections;
+    printf("B api=blockbegin forced=%d lit=%lld dict=%d,%zu,%zu err=%d", fr, AOFF(litAddr), dSize ? (mode == 1 ? 2 : 1) : 0, dOff, dSize, bad);
+    state_out(cctx);
+    if (cd) { const ZSTD_matchState_t* const cm = &cd->matchState; w_out("CD", &cm->window); printf(" cdl=%u cdn=%u", cm->loadedDictEnd, cm->nextToUpdate); }
+    printf("\n");
+    r = (mode == 1) ? ZSTD_compressBegin_usingCDict(fresh, cd) : ZSTD_compressBegin_usingDict(fresh, d, dSize, level); bad |= ZSTD_isError(r);
+    fnb0 = fresh->blockState.matchState.window.nbOverflowCorrections;
+    for (i = 0; i < nch && !bad; i++) {
+        const BYTE* const s = arena + ch[2 * i]; size_t n = (size_t)ch[2 * i + 1];
+        if (n > ZSTD_getBlockSize(cctx)) n = ZSTD_getBlockSize(cctx);
+        usz[i] = n;
+        r = ZSTD_compressBlock(cctx, cbuf + pos, cbufCap - pos, s, n);
+        if (ZSTD_isError(r)) { bad = 1; printf("E blockapi %s\n", ZSTD_getErrorName(r)); break; }
+        csz[i] = r; pos += r;
+        printf("C api=block off=%lld size=%zu csz=%zu", ch[2 * i], n, r);
+        state_out(cctx); printf("\n");
+        r = ZSTD_compressBlock(fresh, cbuf2 + pos2, cbufCap - pos2, s, n);
+        if (ZSTD_isError(r)) { bad = 1; break; }
+        if (r != csz[i]) bad |= 2;     /* outputs differ in size: remembered, not an error */
+        pos2 += r;
+    }
+    if (!(bad & 1)) {
+        BYTE* const dec = (BYTE*)malloc(total + 1); size_t cp = 0;
+        rt = 1;
+        r = ZSTD_decompressBegin_usingDict(dctx, d, dSize);
+        if (ZSTD_isError(r)) rt = 0;
+        for (i = 0; i < nch && rt; i++) {
+            if (csz[i] == 0) { memcpy(dec + q, arena + ch[2 * i], usz[i]); r = usz[i] ? ZSTD_insertBlock(dctx, dec + q, usz[i]) : 0; }
+            else r = ZSTD_decompressBlock(dctx, dec + q, total - q, cbuf + cp, csz[i]);
+            if (ZSTD_isError(r)) { printf("D blockapi block %d: %s\n", i, ZSTD_getErrorName(r)); rt = 0; break; }
+            if (r != usz[i] || memcmp(dec + q, arena + ch[2 * i], usz[i]) != 0) { printf("D blockapi block %d decodes to other bytes\n", i); rt = 0; break; }
+            cp += csz[i]; q += usz[i];
+        }
+        free(dec);
+    }
+    printf("F api=blockapi mode=%d chunks=%d size=%zu csize=%zu rt=%d fresh=%d rnb=%u fnb=%u\n", mode, nch, total, pos, rt,
+           !bad && pos == pos2 && memcmp(cbuf, cbuf2, pos) == 0,
+           cctx->blockState.matchState.window.nbOverflowCorrections - nb0, fresh->blockState.matchState.window.nbOverflowCorrections - fnb0);
+    ZSTD_freeCCtx(fresh); ZSTD_freeCDict(cd); free(csz); free(usz);
+}
+
 /* streaming frame (buffered), small chunks in and out; window not predicted, only the oracles and idx */
 static size_t stream_one(ZSTD_CCtx* c, BYTE* dst, size_t cap, size_t off, size_t size, size_t cin, size_t cout, int flushEvery) {
     ZSTD_inBuffer in; ZSTD_outBuffer out; size_t fed = 0, n = 0; size_t r = 1; int k = 0;
@@ -622,6 +682,9 @@ int main(int argc, char** argv) {
         else if (!strcmp(cmd, "mtstream")) mtstream((U64)a[0], (U64)a[1], n > 2 ? a[2] : 0);
         else if (!strcmp(cmd, "mtjobwrap")) mtjobwrap((unsigned)a[0], (int)a[1], (size_t)a[2]);
         else if (!strcmp(cmd, "mtldmload")) mtldmload((size_t)a[0], (int)a[1], (size_t)a[2], (size_t)a[3]);
+        else if (!strcmp(cmd, "blockapi")) {   /* mode level dictOff dictSize nch (off size)* */
+            frame_blockapi((int)a[0], (int)a[1], (size_t)a[2], (size_t)a[3], (int)a[4], a + 5);
+        }
         else if (!strcmp(cmd, "bufferless")) {
             /* wlog clog hlog slog mml tlen strat checksum nch (off size)* */
             ZSTD_compressionParameters cp;
